@@ -189,3 +189,27 @@ func VerifC11ScanT(tmpl string, validate bool) {
 		vrt.Assert("C11/scanT/invalid", err != nil && err != io.ErrUnexpectedEOF)
 	}
 }
+
+// VerifC11NeedEscape: the lemma behind every "append raw, re-quote only if NeedEscape says so"
+// fast path (Encoder.AppendRaw for text marshalers and map keys, pre-quoted struct member
+// names): whenever NeedEscape(s) is false, quoting s under EVERY escape option set yields
+// exactly '"' + s + '"' without error - so skipping the re-quote can never leave a raw
+// character that EscapeForHTML/EscapeForJS forbid, invalid UTF-8, or a character needing a
+// backslash escape.
+func VerifC11NeedEscape(n int) {
+	s := vrt.Bytes("s", n)
+	vrt.InputBits(8 * n)
+	if NeedEscape(s) {
+		vrt.Cover("needs-escape")
+		return
+	}
+	vrt.Cover("verbatim")
+	plain := append(append([]byte{'"'}, s...), '"')
+	for _, html := range []bool{false, true} {
+		for _, js := range []bool{false, true} {
+			out, err := AppendQuote(nil, s, zzFlags(html, js, false, false))
+			vrt.Assert("C11/needescape/verbatim-is-safe", err == nil && bytes.Equal(out, plain))
+		}
+	}
+	vrt.Assert("C11/needescape/reference-agrees", bytes.Equal(zzspec.MinimalQuote(s, true, true), plain) && zzspec.UTF8WellFormed(s))
+}
